@@ -168,6 +168,35 @@ def obtainFromDict (reg : Reg) (entries : List Entry) : Except ErrKind Quantity 
   | [e] => if e.exp = 1 then newSimple reg e.cat e.unit else newDerived reg entries
   | _ => newDerived reg entries
 
+/-! ### the list/tuple form of `ObtainQuantity` (what `GetComposingUnits()` / `GetComposingCategories()`
+return): `ObtainQuantity([(unit, exp), ...], [category, ...])` -/
+
+/-- `d[e.cat] = [e.unit, e.exp]` on an `OrderedDict`: an existing key keeps its place -/
+def odictSet : List Entry → Entry → List Entry
+  | [], e => [e]
+  | x :: rest, e => if x.cat = e.cat then e :: rest else x :: odictSet rest e
+
+/-- `zip(category, unit)`: cut to the shorter of the two -/
+def zipEntries : List Str → List (Str × Int) → List Entry
+  | c :: cs, (u, x) :: ps => ⟨c, u, x⟩ :: zipEntries cs ps
+  | _, _ => []
+
+/-- `OrderedDict((cat, unit_and_exp) for ... in zip(category, unit))` -/
+def odictOf (es : List Entry) : List Entry := es.foldl odictSet []
+
+/-- the `isinstance(unit, (list, tuple))` block of `ObtainQuantity` followed by the dict block (the category
+argument is a list or tuple here): exactly one pair with exponent 1 is the simple case and takes
+`category[0]` (an `IndexError` when there is none), everything else goes through the dict form -/
+def obtainFromList (reg : Reg) (pairs : List (Str × Int)) (cats : List Str) : Except ErrKind Quantity :=
+  match pairs with
+  | [(u, e)] =>
+    if e = 1 then
+      match cats with
+      | c :: _ => newSimple reg c u
+      | [] => .error .index
+    else obtainFromDict reg (odictOf (zipEntries cats pairs))
+  | _ => obtainFromDict reg (odictOf (zipEntries cats pairs))
+
 /-- `(unit name, exp)` of every entry, in order; fails at the first failing lookup -/
 def namePairs (reg : Reg) : List Entry → Except ErrKind (List (Str × Int))
   | [] => .ok []
